@@ -4,7 +4,7 @@ machine : an EL6002 channel model (initialisation after 0-k cycles, transmit
           accepted after 0-k cycles, receive requests whose acknowledgement
           the master gives, both directions active together) driven cycle by
           cycle around the real Serial.update() of a slow sync group on the
-          real EL6002 terminal class; the application side writes chunks of
+          real EL6002 / EL6022 terminal classes; the application side writes chunks of
           1-22 bytes (sometimes several before the next cycle) to the channel's
           pipe and drains its receive pipe.  The terminal's other channel
           is used by a second Serial device of the same group: either it is
@@ -23,7 +23,7 @@ from hypothesis import strategies as st
 
 from ebpfcat.ebpfcat import SimpleEtherCat, SyncGroup, SyncManager
 from ebpfcat.serial import Serial
-from ebpfcat.terminals import EL6002
+from ebpfcat.terminals import EL6002, EL6022
 
 ID = "C28"
 LEVEL = "exploration"
@@ -72,12 +72,15 @@ def strategy(tier):
         "init_delay2": st.integers(0, 3),
         "stale2": st.sampled_from([0, 0, 1, 2, 3]),
         "order": st.integers(0, 1),
+        "terminal": st.sampled_from(["EL6002", "EL6022"]),
     })
 
 
 def run_case(case):
     ec = SimpleEtherCat("verif")
-    term = EL6002(ec)
+    # both two-channel serial terminals of the library have this process
+    # image (24 bytes per channel and direction)
+    term = (EL6022 if case.get("terminal") == "EL6022" else EL6002)(ec)
     term.position = 1005
     term.pdos = {}
     term.use_fmmu = False
@@ -317,6 +320,7 @@ def _run(case, ec, term, dev, dev2):
                           "".join(e[0] for e in ch2.events)
                           if active2 else None)),
                 classes=[f"channel={case['channel']}",
+                         case.get("terminal", "EL6002"),
                          "both-directions" if both else "one-direction",
                          "delayed" if delayed else "immediate",
                          "other-channel-active" if active2
